@@ -1329,6 +1329,13 @@ class Controller:
             )
             return None
 
+        # Check that we're not already connected, or connecting, to that peer
+        if command.bd_addr in self.classic_connections:
+            self._send_hci_command_status(
+                hci.HCI_ErrorCode.CONNECTION_ALREADY_EXISTS_ERROR, command.op_code
+            )
+            return None
+
         self.classic_connections[command.bd_addr] = Connection(
             controller=self,
             handle=0,
